@@ -387,6 +387,14 @@ func (e *Eng) tableLookup(t *table, k Val, c *ctx, commaOk bool) Val {
 	v := Val{K: t.valKind, T: "(" + valName + " " + kt + ")", GoT: m.Elem()}
 	if t.presenceOnly {
 		v = e.symFor("tblval", m.Elem(), c.st)
+		if _, isMap := m.Elem().Underlying().(*types.Map); isMap && v.K == KRef && t.keyKind == KStr {
+			// a table of tables: the inner map is one value per key (nil for an absent key),
+			// so that two lookups of the same key agree
+			fn := "|tblv:" + t.name + "|"
+			e.declOnce(fmt.Sprintf("(declare-fun %s (Str) Int)", fn))
+			e.declOnce(fmt.Sprintf("(assert (forall ((k Str)) (! (and (>= (%s k) 0) (= (= (%s k) 0) (not (%s k)))) :pattern ((%s k)))))", fn, fn, inName, fn))
+			v.T = "(" + fn + " " + kt + ")"
+		}
 	}
 	if commaOk {
 		return Val{K: KTuple, Elts: []Val{v, {K: KBool, T: "(" + inName + " " + kt + ")", GoT: types.Typ[types.Bool]}}}
